@@ -15,11 +15,11 @@ through the functions of the loop.
 -/
 namespace I2N.Trav
 
-/-- worker `w` has accumulated more back-off than the timeout budget `timeout * max_tries` of a node it has bounced off
+/-- worker `w` has accumulated more back-off than the timeout budget `timeout * max(max_tries, 1)` of a node it has bounced off
 before: its next bounce at that node would raise the node's `max_concurrent_tries` -/
 def overWaited (g : Graph) (s : State) (w : Nat) : Prop :=
   ∃ n ∈ (s.wd w).occAt,
-    (s.wd w).occWait > Float.ofInt (((g.node n).timeout : Int) * ((g.node n).maxTries.getD 1))
+    (s.wd w).occWait > Float.ofInt (((g.node n).timeout : Int) * max ((g.node n).maxTries.getD 1) 1)
 
 /-- a worker that has not bounced yet has not over-waited -/
 theorem not_overWaited_of_nil {g : Graph} {s : State} {w : Nat} (h : (s.wd w).occAt = []) : ¬ overWaited g s w := by
@@ -253,7 +253,7 @@ theorem iter_calm {g gv : Graph} (hgv : SameNodes gv g) (s : State) (w : Nat) (h
           rw [nd_setWd]
           by_cases hc : (s.wd w).occAt.contains next = true
           · have hnot : ¬ ((s.wd w).occWait >
-                Float.ofInt (((gv.node next).timeout : Int) * ((gv.node next).maxTries.getD 1))) := by
+                Float.ofInt (((gv.node next).timeout : Int) * max ((gv.node next).maxTries.getD 1) 1)) := by
               intro hgt
               apply h
               refine ⟨next, by simpa using hc, ?_⟩
